@@ -419,6 +419,21 @@ Inst(kd, ev) ==
                              sp \in {q \in AlLoc(ev, c, 2) \X AlLoc(ev, c, 3) \X AlLoc(ev, c, 1) :
                                        q[1] # El(c, 2) \/ q[2] # El(c, 3) \/ q[3] # El(c, 1)}} :
                           c \in Pick({q \in Pl("L") : ev[q].ok /\ ev[q].val.len >= 3})}
+    [] kd = "RecvAssign" ->
+        \* ch := make(chan T, 1); ch <- S; D = <-ch  (x: also "D, ok = <-ch"): a received value is STORED INTO the
+        \* variable D like any other assigned value (pointers to D and closures over D keep referring to it)
+        UNION {{[Op(kd) EXCEPT !.d = pr[1], !.s = pr[2], !.x = T, !.j = pr[3]] :
+                  pr \in {q \in Pl(T) \X Pl(T) \X (0..1) : q[1] # q[2] /\ ~EndsDeref(q[2]) /\ AddrE(ev, q[1]) /\ ev[q[2]].ok}} :
+                  T \in CopyTypes \cap {"A", "S", "L", "AS", "PI"}}
+    [] kd = "AppendAl" ->
+        \* D = append(S[:i], S[n1], S[n2]): the element operands are read before anything is appended, although
+        \* the append (in place when the capacity allows) overwrites the elements they name
+        {[Op(kd) EXCEPT !.d = pr[1], !.s = pr[2], !.i = pr[3], !.ss = <<El(pr[2], pr[4][1]), El(pr[2], pr[4][2])>>, !.n = pr[3] + 2, !.x = "L"] :
+            pr \in {q \in Pl("L") \X Pl("L") \X (0..1) \X ((1..MaxIdx) \X (1..MaxIdx)) :
+                      /\ AddrE(ev, q[1]) /\ ev[q[2]].ok /\ q[4][1] # q[4][2]
+                      /\ q[4][1] <= ev[q[2]].val.len /\ q[4][2] <= ev[q[2]].val.len
+                      /\ El(q[2], q[4][1]) \in AllPlaces /\ El(q[2], q[4][2]) \in AllPlaces
+                      /\ (q[3] + 2 > ev[q[2]].val.cap => GrowCap("L", ev[q[2]].val.cap, q[3] + 2) <= MaxCap)}}
     [] kd = "LoopDefine" ->
         \* for n := 0; n < 2; n++ { x := S; x[n] = v; D[n] = x[:] }   (S an array; for a struct S: x.A[n] = v; D[n] = x.A[:])
         \* every execution of x := S declares a NEW variable: the slices kept from the two iterations
@@ -469,7 +484,9 @@ PassS(M, x, v) ==
 
 Eff(op, ev) ==
   LET M == mem  kd == op.k  D == ev[op.d]  S == ev[op.s]  v == op.v IN
-  CASE kd \in {"AssignVar", "Deref"} -> Res(Put(M, D, S.val), mty, <<>>, ChkMove(op.x, op.d, op.s, S.val), op)
+  CASE kd \in {"AssignVar", "Deref", "RecvAssign"} -> Res(Put(M, D, S.val), mty, <<>>, ChkMove(op.x, op.d, op.s, S.val), op)
+    [] kd = "AppendAl" ->
+        AppendTo(M, mty, D, [S EXCEPT !.val = [S.val EXCEPT !.len = op.i]], [x \in 1..Len(op.ss) |-> Rd(M, op.ss[x]).val], "L", op)
     [] kd = "Unbox" -> Res(Put(M, D, M[Id("e")].v), mty, <<>>, NoChk, op)
     [] kd = "SetThroughPtr" ->
         IF op.x = "int" THEN Res(Put(M, D, v), mty, <<>>, NoChk, op)
@@ -627,11 +644,12 @@ Box(ev) == Act("Box", ev)                        Unbox(ev) == Act("Unbox", ev)
 BindMV(ev) == Act("BindMV", ev)
 AppendN(ev) == Act("AppendN", ev)         Tuple(ev) == Act("Tuple", ev)
 MapTuple(ev) == Act("MapTuple", ev)        LoopDefine(ev) == Act("LoopDefine", ev)
+RecvAssign(ev) == Act("RecvAssign", ev)    AppendAl(ev) == Act("AppendAl", ev)
 
 AllKinds == {"AssignVar", "Deref", "SetLit", "SetField", "SetElem", "SetThroughPtr", "SetMapEntry", "MapDelete", "MapLookup",
              "Append", "AppendLL", "AppendSlice", "DeleteIdx", "Copy", "Slice2", "Slice3", "Make", "AddrOf", "Swap",
              "IdxAssign", "RebindAssign", "PassByValue", "ReturnComposite", "RangeArray", "RangeSlice", "Capture",
-             "CallFunc", "Box", "Unbox", "BindMV", "AppendN", "Tuple", "MapTuple", "LoopDefine"}
+             "CallFunc", "Box", "Unbox", "BindMV", "AppendN", "Tuple", "MapTuple", "LoopDefine", "RecvAssign", "AppendAl"}
 
 Next ==
     /\ Len(hist) < MaxSteps
@@ -641,7 +659,7 @@ Next ==
         \/ CopyOp(ev) \/ Slice2(ev) \/ Slice3(ev) \/ Make(ev) \/ AddrOf(ev) \/ Swap(ev) \/ IdxAssign(ev)
         \/ RebindAssign(ev) \/ PassByValue(ev) \/ ReturnComposite(ev) \/ RangeArray(ev) \/ RangeSlice(ev)
         \/ Capture(ev) \/ CallFunc(ev) \/ Box(ev) \/ Unbox(ev) \/ BindMV(ev) \/ SetLit(ev)
-        \/ AppendN(ev) \/ Tuple(ev) \/ MapTuple(ev) \/ LoopDefine(ev)
+        \/ AppendN(ev) \/ Tuple(ev) \/ MapTuple(ev) \/ LoopDefine(ev) \/ RecvAssign(ev) \/ AppendAl(ev)
 
 \* simulation: the kind is drawn first, then the instance (TLC's uniform choice among
 \* successor STATES would be dominated by the kinds with many instances)
